@@ -59,7 +59,7 @@ def missing(prop, family, K, fid, what="function"):
 
 
 # ---------------------------------------------------------------- T rows (content dependence)
-def t_row(K, prop, fid, soft=False, source_locals=(1,)):
+def t_row(K, prop, fid, soft=False, source_locals=(1,), content_locals=(), any_err=False, what=None):
     """No branch of `fid` rejects its input (overflow kind / None) without depending on the input's bytes
     (analysis/taint.py).  One obligation per function; the detail lists every offending branch."""
     from . import taint
@@ -71,12 +71,17 @@ def t_row(K, prop, fid, soft=False, source_locals=(1,)):
             return Ob(key, prop, "T", K.config, fid, UNDECIDED, "internal helper `%s` does not exist as a separate function; not decided here" % fid)
         return missing(prop, "T", K, fid)
     taint.selfcheck()
-    B = taint.Body(F.bodies[d], list(source_locals))
+    B = taint.Body(F.bodies[d], list(source_locals), list(content_locals), any_err)
     st = B.stats()
     found = B.content_independent_rejections()
     loc = F.loc(d)
     if found:
         sites = "; ".join("%s: branch bb%d -> bb%d can only fail with %s" % (f[3], f[0], f[1], "/".join(f[2])) for f in found)
+        if content_locals:
+            return Ob(key, prop, "T", K.config, fid, VIOLATED,
+                      "the decision of %d branch(es) does not depend on the converted value (neither data nor control flow from it "
+                      "reaches the branch) and one side only rejects: %s - every value is refused on that side, including 0, which "
+                      "every target type represents" % (len(found), sites), loc, dict(analysed=st))
         return Ob(key, prop, "T", K.config, fid, VIOLATED,
                   "the decision of %d branch(es) depends on the input only through its length (neither data nor control flow "
                   "from the bytes reaches it) and one side only rejects: %s - every input of such a length is refused whatever "
